@@ -236,6 +236,11 @@ impl<T: ValT> ValTx for T {}
 
 /// Sort array by the given function.
 fn sort_by<'a, V: ValT>(xs: &mut [V], f: impl Fn(V) -> ValXs<'a, V>) -> Result<(), Exn<'a, V>> {
+    // `sort_by_cached_key` does not evaluate the key of a sole element,
+    // but `f` has to be evaluated for each value, because it might fail
+    if let [x] = xs {
+        return f(x.clone()).try_for_each(|y| y.map(|_| ()));
+    }
     // Some(e) iff an error has previously occurred
     let mut err = None;
     xs.sort_by_cached_key(|x| {
